@@ -130,13 +130,13 @@ Lemma run_inv h n cutoff pre :
                     nth_error bs (length p1) = Some (verdict_spec h n cutoff p1 a t).
 Proof.
   intros Hn. induction pre as [|[a t] pre IH] using rev_ind.
-  - exists (new_cache n), []. repeat split; try reflexivity; [apply inv_new|].
+  - exists (new_cache n), []. split; [reflexivity|]. split; [apply inv_new|]. split; [reflexivity|].
     intros p1 a t p2 E. destruct p1; discriminate.
   - destruct IH as (c & bs & Hrun & Hinv & Hlen & Hv).
     destruct (is_allowed_inv h n cutoff c pre a t Hn Hinv) as (c' & Hal & Hinv').
     exists c', (bs ++ [verdict_spec h n cutoff pre a t]).
     rewrite run_from_app, Hrun. cbn [res_bind run_from]. rewrite Hal. cbn [res_bind].
-    repeat split; [exact Hinv'| rewrite !app_length; cbn; lia|].
+    split; [reflexivity|]. split; [exact Hinv'|]. split; [rewrite !app_length; cbn; lia|].
     intros p1 a0 t0 p2 E.
     destruct p2 as [|y p2] using rev_ind.
     + apply app_inj_tail in E. destruct E as [E1 E2]. inversion E2; subst.
@@ -146,11 +146,6 @@ Proof.
       * apply (Hv p1 a0 t0 p2). exact E1.
       * rewrite Hlen, E1, app_length. cbn. lia.
 Qed.
-
-Lemma run_size_zero h n cutoff calls c :
-  run_from h cutoff [] calls = Ok (c, map (fun _ => true) calls) \/ False ->
-  True.
-Proof. trivial. Qed.
 
 Lemma run_empty h cutoff calls :
   run_from h cutoff [] calls = Ok ([], map (fun _ => true) calls).
@@ -283,4 +278,25 @@ Proof.
   destruct (nth_error c (Z.to_nat (slot_of h (Z.of_nat (length c)) a))) as [occ|] eqn:En.
   - destruct occ as [[v told]|]; [destruct (a =? v)|]; eexists _, _; (split; [reflexivity|apply length_upd]).
   - apply nth_error_None in En. lia.
+Qed.
+
+Lemma verdict_spec_false_iff h n cutoff pre a t :
+  verdict_spec h n cutoff pre a t = false <->
+  exists t', last_on_slot h n (slot_of h n a) pre = Some (a, t') /\ dur_since t t' < cutoff.
+Proof.
+  unfold verdict_spec. split.
+  - destruct (last_on_slot h n (slot_of h n a) pre) as [[v told]|]; [|discriminate].
+    destruct (a =? v) eqn:Eav; [|discriminate]. apply Z.eqb_eq in Eav. subst v.
+    intros Hs. exists told. split; [reflexivity|]. apply Z.leb_gt. exact Hs.
+  - intros (t' & Hl & Hd). rewrite Hl, Z.eqb_refl. apply Z.leb_gt. exact Hd.
+Qed.
+
+Lemma run_from_length h cutoff c calls c' bs :
+  run_from h cutoff c calls = Ok (c', bs) -> length bs = length calls.
+Proof.
+  revert c c' bs; induction calls as [|[a t] r IH]; intros c c' bs H; cbn [run_from res_bind] in H.
+  - inversion H. reflexivity.
+  - destruct (is_allowed h c a t cutoff) as [[c1 b]| |]; cbn [res_bind] in H; try discriminate.
+    destruct (run_from h cutoff c1 r) as [[c2 bs2]| |] eqn:E; cbn [res_bind] in H; try discriminate.
+    inversion H; subst. cbn [length]. f_equal. eapply IH. exact E.
 Qed.
